@@ -227,6 +227,26 @@ func (c *Ctx) cloneBeforeMutate() {
 			if g == nil || g.Blocks == nil || !c.P.InLib(g) || publishMutators[g.Name()] || g.Name() == "Clone" {
 				continue
 			}
+			// the list of looked-up messages (or a part of it) handed to a helper that changes an element in place
+			for i, a := range call.Common().Args {
+				if i >= len(g.Params) {
+					continue
+				}
+				base := ir.SeeThrough(a)
+				for k := 0; k < 3; k++ {
+					if sl, ok := base.(*ssa.Slice); ok {
+						base = ir.SeeThrough(sl.X)
+					}
+				}
+				bp := ir.PathOf(base)
+				if _, isSlice := a.Type().Underlying().(*types.Slice); !isSlice || bp.Root != lookupDst.Root || !strings.HasPrefix(bp.String(), lookupDst.String()) {
+					continue
+				}
+				if m := mutatesElementOfSliceParam(g, g.Params[i]); m != "" {
+					nmut++
+					c.R.Bad(ruleG7, fmt.Sprintf("%s:%s-mutates-retained-argument", name, g.Name()), c.P.InstrPos(call), "the messages obtained from the retained-store lookup are handed to "+g.Name()+", which changes one of them in place ("+m+") instead of a clone: the stored retained message is shared by every connection that subscribes to it - two deliveries write and read it at the same time, and later subscribers get the changed message")
+				}
+			}
 			for i, a := range call.Common().Args {
 				if i >= len(g.Params) || !elemOfLookup(a) {
 					continue
@@ -538,6 +558,44 @@ func (c *Ctx) cloneIsDeep() {
 		}
 	}
 	c.R.Check(len(bad) == 0, ruleG7, "PublishMessage.Clone:shares-nothing-with-the-original", c.P.Pos(fn.Pos()), "no slice or struct value of the receiver is stored into the clone", "Clone copies slice headers of the original into the clone ("+joinStr(bad, ", ")+"): a mutator applied to the clone (SetQoS on the retained-delivery path) rewrites bytes of the stored retained message and of its encoded image")
+}
+
+// mutatesElementOfSliceParam: fn applies a mutator of PublishMessage / header to an element loaded from its slice
+// parameter p (not to a clone of it); returns the mutator's name.
+func mutatesElementOfSliceParam(fn *ssa.Function, p *ssa.Parameter) string {
+	for _, call := range ir.Calls(fn) {
+		f := call.Common().StaticCallee()
+		if f == nil || !publishMutators[f.Name()] || len(call.Common().Args) == 0 || f.Signature.Recv() == nil {
+			continue
+		}
+		if rn := namedName(f.Signature.Recv().Type()); rn != "PublishMessage" && rn != "header" {
+			continue
+		}
+		recv := ir.SeeThrough(call.Common().Args[0])
+		for i := 0; i < 3; i++ {
+			if fa, ok := recv.(*ssa.FieldAddr); ok {
+				recv = ir.SeeThrough(fa.X)
+			}
+		}
+		u, ok := recv.(*ssa.UnOp)
+		if !ok {
+			continue
+		}
+		ia, ok := u.X.(*ssa.IndexAddr)
+		if !ok {
+			continue
+		}
+		base := ir.SeeThrough(ia.X)
+		for k := 0; k < 3; k++ {
+			if sl, ok := base.(*ssa.Slice); ok {
+				base = ir.SeeThrough(sl.X)
+			}
+		}
+		if base == ssa.Value(p) {
+			return f.Name()
+		}
+	}
+	return ""
 }
 
 // mutatesPublishParam: fn calls a mutator of PublishMessage / header on its parameter p (directly, or by handing it to a
